@@ -112,6 +112,24 @@ pub fn scenarios(tier: Tier) -> Vec<C07Scn> {
 				feerate_after_close: None,
 				miner_delay: 0,
 			});
+			// a two-part payment over the one channel (two HTLCs with the same hash); the recipient learns the
+			// preimage only after the closing commitment is confirmed (1 block) or buried (7 blocks)
+			for conf in if th { vec![1u32, 3, 7] } else { vec![1u32, 7] } {
+				v.push(C07Scn {
+					name: format!("{}-close-by{}-samehash-preimage-after-{}conf", n, closer, conf),
+					ct,
+					ops: vec![
+						Op::SendMultiPath { from: 0, paths: vec![(vec![(1, 0)], 30_000_000), (vec![(1, 0)], 25_000_000)], policy: ClaimPolicy::Hold },
+						send(1, 0, 20_000_000, ClaimPolicy::Hold),
+						Op::ForceClose { node: closer, chan: 0 },
+						Op::MineBlocks { n: conf },
+						Op::ClaimHeld { pay: 0 },
+					],
+					k: if th { 2 } else { 1 },
+					feerate_after_close: None,
+					miner_delay: 0,
+				});
+			}
 			// slow confirmations: every transaction waits `delay` blocks in the mempool, so claims are re-issued with higher fees
 			for delay in if th { vec![6u32, 17] } else { vec![17u32] } {
 				v.push(C07Scn {
